@@ -1,7 +1,132 @@
-(** C04 - placeholder obligations until PathsProofs lands. *)
-From Coq Require Import ZArith List.
-From V Require Import Base Perm PermProofs.
-Theorem C04_inverse_generator_undoes : forall (A : Type) (d : A) p (x : list A), Perm p -> length x = length p ->
-  apply_perm d (inverse_perm p) (apply_perm d p x) = x /\ apply_perm d p (apply_perm d (inverse_perm p) x) = x.
-Proof. exact @inverse_undoes. Qed.
-Print Assumptions C04_inverse_generator_undoes.
+(** C04 - Paths restored from a BFS result are valid and shortest. Statements only: every proof is [exact] of a lemma proved elsewhere.
+    G/Ginv: a graph instance and its inverted copy (same hasher); U: the states a run touches; ball_ok G c lh: lh are the strictly sorted
+    per-layer hash lists of the true BFS layers from the central state c (what C09_bfs_prefix delivers); NoColl = hash injective on U.
+    (Statements are the lemmas' closed types as printed by Coq, hence the qualified names.) *)
+From V Require Import Base Tensor Graph GraphProofs GraphImpl Def Paths BfsStep PathsProofs.
+
+(* the backward walk over layer hashes yields a real path of the right length; its internal assertion cannot fire *)
+Theorem C04_restore_path_correct :
+  forall (G Ginv : impl) (U : state -> Prop),
+         closed state (acts G) U ->
+         closed state (acts Ginv) U ->
+         (forall a b : state, U a -> U b -> hashf G a = hashf G b -> a = b) ->
+         length (acts Ginv) = length (acts G) ->
+         (forall (i : nat) (g gi : state -> state) (x : state),
+          List.nth_error (acts G) i = Some g ->
+          List.nth_error (acts Ginv) i = Some gi -> U x -> g (gi x) = x /\ gi (g x) = x) ->
+         forall c : state,
+         U c ->
+         forall (lh : list (list BinNums.Z)) (i : nat) (q : state),
+         ball_ok G c lh ->
+         i <= length lh ->
+         List.In q (layer state st_eq_dec (acts G) (c :: nil) i) ->
+         exists p : list nat,
+           restore_path G Ginv (List.firstn i lh) q = Ok p /\
+           length p = i /\ run state (acts G) c p = Some q.
+Proof. exact restore_path_correct. Qed.
+Print Assumptions C04_restore_path_correct.
+
+(* a returned path replays from the central state to the query and its length is the true distance *)
+Theorem C04_find_path_to_sound :
+  forall (G Ginv : impl) (U : state -> Prop),
+         closed state (acts G) U ->
+         closed state (acts Ginv) U ->
+         (forall a b : state, U a -> U b -> hashf G a = hashf G b -> a = b) ->
+         length (acts Ginv) = length (acts G) ->
+         (forall (i : nat) (g gi : state -> state) (x : state),
+          List.nth_error (acts G) i = Some g ->
+          List.nth_error (acts Ginv) i = Some gi -> U x -> g (gi x) = x /\ gi (g x) = x) ->
+         forall c : state,
+         U c ->
+         forall (lh : list (list BinNums.Z)) (ns : nat) (q : state) (p : list nat),
+         ball_ok G c lh ->
+         U q ->
+         find_path_to G Ginv lh ns q = Ok (Some p) ->
+         run state (acts G) c p = Some q /\
+         dist_is state (acts G) (c :: nil) q (length p) /\ length p < length lh.
+Proof. exact find_path_to_sound. Qed.
+Print Assumptions C04_find_path_to_sound.
+
+(* 'no path' exactly when the state is in none of the layers 0..D; never an error on a well-formed ball *)
+Theorem C04_find_path_to_complete :
+  forall (G Ginv : impl) (U : state -> Prop),
+         closed state (acts G) U ->
+         closed state (acts Ginv) U ->
+         (forall a b : state, U a -> U b -> hashf G a = hashf G b -> a = b) ->
+         length (acts Ginv) = length (acts G) ->
+         (forall (i : nat) (g gi : state -> state) (x : state),
+          List.nth_error (acts G) i = Some g ->
+          List.nth_error (acts Ginv) i = Some gi -> U x -> g (gi x) = x /\ gi (g x) = x) ->
+         forall c : state,
+         U c ->
+         forall (lh : list (list BinNums.Z)) (ns : nat) (q : state),
+         ball_ok G c lh ->
+         U q ->
+         length lh = ns ->
+         (find_path_to G Ginv lh ns q = Ok None <->
+          (forall i : nat, i < length lh -> ~ List.In q (layer state st_eq_dec (acts G) (c :: nil) i))) /\
+         (exists r : option (list nat), find_path_to G Ginv lh ns q = Ok r).
+Proof. exact find_path_to_complete. Qed.
+Print Assumptions C04_find_path_to_complete.
+
+(* no replayable path is shorter *)
+Theorem C04_find_path_to_shortest :
+  forall (G Ginv : impl) (U : state -> Prop),
+         closed state (acts G) U ->
+         closed state (acts Ginv) U ->
+         (forall a b : state, U a -> U b -> hashf G a = hashf G b -> a = b) ->
+         length (acts Ginv) = length (acts G) ->
+         (forall (i : nat) (g gi : state -> state) (x : state),
+          List.nth_error (acts G) i = Some g ->
+          List.nth_error (acts Ginv) i = Some gi -> U x -> g (gi x) = x /\ gi (g x) = x) ->
+         forall c : state,
+         U c ->
+         forall (lh : list (list BinNums.Z)) (ns : nat) (q : state) (p : list nat),
+         ball_ok G c lh ->
+         U q ->
+         find_path_to G Ginv lh ns q = Ok (Some p) ->
+         forall p' : list nat, run state (acts G) c p' = Some q -> length p <= length p'.
+Proof. exact find_path_to_shortest. Qed.
+Print Assumptions C04_find_path_to_shortest.
+
+(* inverse-closed generators: the reverted path leads from the state to the central state, length = distance *)
+Theorem C04_find_path_from_sound :
+  forall (G Ginv : impl) (U : state -> Prop),
+         closed state (acts G) U ->
+         closed state (acts Ginv) U ->
+         (forall a b : state, U a -> U b -> hashf G a = hashf G b -> a = b) ->
+         length (acts Ginv) = length (acts G) ->
+         (forall (i : nat) (g gi : state -> state) (x : state),
+          List.nth_error (acts G) i = Some g ->
+          List.nth_error (acts Ginv) i = Some gi -> U x -> g (gi x) = x /\ gi (g x) = x) ->
+         forall c : state,
+         U c ->
+         forall (m : list nat) (lh : list (list BinNums.Z)) (ns : nat) (q : state) (p : list nat),
+         (forall (i : nat) (g : state -> state),
+          List.nth_error (acts G) i = Some g ->
+          exists g' : state -> state,
+            List.nth_error (acts G) (List.nth i m 0) = Some g' /\
+            (forall x : state, U x -> g' (g x) = x)) ->
+         ball_ok G c lh ->
+         U q ->
+         find_path_from G Ginv (Some m) lh ns q = Ok (Some p) ->
+         run state (acts G) q p = Some c /\ dist_is state (acts G) (c :: nil) q (length p).
+Proof. exact find_path_from_sound. Qed.
+Print Assumptions C04_find_path_from_sound.
+
+(* reverting a path A->B gives a valid path B->A of the same length *)
+Theorem C04_revert_path_valid :
+  forall (G : impl) (U : state -> Prop),
+         closed state (acts G) U ->
+         forall (m : list nat) (a b : state) (p : list nat),
+         (forall (i : nat) (g : state -> state),
+          List.nth_error (acts G) i = Some g ->
+          exists g' : state -> state,
+            List.nth_error (acts G) (List.nth i m 0) = Some g' /\
+            (forall x : state, U x -> g' (g x) = x)) ->
+         U a ->
+         run state (acts G) a p = Some b ->
+         exists q : list nat,
+           revert_path (Some m) p = Ok q /\ length q = length p /\ run state (acts G) b q = Some a.
+Proof. exact revert_path_valid. Qed.
+Print Assumptions C04_revert_path_valid.
